@@ -129,7 +129,7 @@ CHECKS = {
         "level": "exploration",
         "engine": "E1",
         "needs_bins": ["mrp", "mrjob", "stagebin"],
-        "technique": "property-based testing (rapid): injectivity + parse round trip of fork / journal names over generated Unicode key sets; end-to-end mapped runs over adversarial keys and lengths against the reference model",
+        "technique": "property-based testing (rapid): injectivity + parse round trip of fork / journal names over generated Unicode key sets; end-to-end mapped runs over adversarial keys and lengths against the reference model, in process and (cluster job mode, keys that are job script template parameters) with real processes",
         "level_text": ("Unit level (verif-tag exports): for generated key sets (dots, slashes, percent signs, spaces, control and non-ASCII characters, already-encoded looking text, names of "
                        "metadata files) distinct keys give distinct directory and journal names, and the journal file name of (node, fork, chunk, attempt, file) parses back to exactly "
                        "those parts and cannot be taken for an array index. End to end (E1): map calls of a (splitting or plain) stage over literal maps with such keys, literal arrays of "
@@ -152,9 +152,9 @@ CHECKS = {
     },
     "C12": {
         "level": "exploration",
-        "engine": "pure",
+        "engine": "E2",
         "needs_bins": ["mrp", "mrjob", "stagebin"],
-        "technique": "property-based testing (rapid stateful/model-based): FIFO semaphore model vs ResourceSemaphore, slot model vs MaxJobsSemaphore, range oracle for request clamping",
+        "technique": "property-based testing (rapid stateful/model-based): FIFO semaphore model vs ResourceSemaphore, slot model vs MaxJobsSemaphore (incl. re-attached jobs), range oracle for request clamping; generated programs run by the real mrp in local mode (weighted overlap of stage processes vs limits) and in a cluster job mode with mrp killed and restarted while jobs are out (overlap vs --maxjobs across both instances)",
         "level_text": ("Model-based stateful search through the exported API: generated sequences of acquire (blocking, in goroutines) / release / availability-update "
                        "operations on ResourceSemaphore checked after every step against a FIFO model (reserved <= max, grants only from the head and in request order, "
                        "no lost wake-up, over-max fails at once, final drain completes); MaxJobsSemaphore with real Metadata objects (Current <= Limit, freed slots are "
